@@ -21,6 +21,8 @@ import (
 // from the same identity call. Dense-id maps follow the idiom
 // `v, ok := M[k]; if !ok { v = len(M); M[k] = v }` on one map and one key.
 var identityMemo []*ssa.Lookup
+var identityPartial []*ssa.Call
+var identityBusy = map[*ssa.Function]bool{}
 
 func identityCalls(v ssa.Value) []*ssa.Call {
 	var out []*ssa.Call
@@ -29,6 +31,37 @@ func identityCalls(v ssa.Value) []*ssa.Call {
 			if f := core.CalleeObj(cl); f != nil && f.Pkg() != nil && f.Pkg().Path() == pkgCommonOtlp && strings.HasSuffix(f.Name(), "ID") && len(cl.Call.Args) >= 1 && isPdataType(cl.Call.Args[0].Type()) {
 				out = append(out, cl)
 				return false
+			}
+		}
+		// a helper of the encoder packages that is handed the container: an identity function of its own if every value it
+		// returns comes from the identity function applied to that parameter; a path that builds the value from fewer
+		// fields (a fast path for attribute-less scopes) gives two entities one identity
+		if cl, ok := x.(*ssa.Call); ok {
+			if h := cl.Call.StaticCallee(); h != nil && len(h.Blocks) > 0 && encPkg(core.FnPkgPath(h)) && len(cl.Call.Args) >= 1 && isPdataType(cl.Call.Args[0].Type()) && h.Signature.Results().Len() == 1 && !identityBusy[h] {
+				identityBusy[h] = true
+				all, any := true, false
+				for _, r := range core.Returns(h) {
+					sub := identityCalls(r.Results[0])
+					okR := false
+					for _, c2 := range sub {
+						if len(h.Params) > 0 && core.Canon(c2.Call.Args[0]) == ssa.Value(h.Params[0]) {
+							okR = true
+						}
+					}
+					if okR {
+						any = true
+					} else {
+						all = false
+					}
+				}
+				identityBusy[h] = false
+				if any {
+					out = append(out, cl)
+					if !all {
+						identityPartial = append(identityPartial, cl)
+					}
+					return false
+				}
 			}
 		}
 		// through a dense-id map: the looked-up key
@@ -89,8 +122,12 @@ func rt_24(c *core.Ctx, p *core.Prog) {
 					}
 					if b, isB := st.Val.Type().Underlying().(*types.Basic); isB && (b.Kind() == types.String || b.Info()&types.IsInteger != 0) {
 						identityMemo = nil
+						identityPartial = nil
 						if cs := identityCalls(st.Val); len(cs) > 0 {
 							ids = append(ids, idf{core.FieldName(fa), cs})
+							for _, pc := range identityPartial {
+								memoMsgs = append(memoMsgs, fmt.Sprintf("identity field %s is computed by %s, which on some path returns a value that is not the identity function's (built from fewer fields): entities that differ only in what is left out get one identity and are merged", core.FieldName(fa), core.CalleeObj(pc).Name()))
+							}
 							for _, lk := range identityMemo {
 								memoMsgs = append(memoMsgs, fmt.Sprintf("identity field %s can be taken from the table %s looked up by a key that is not the identity (%s): entities that agree on that key but differ elsewhere (attributes, dropped count) get one identity and are merged", core.FieldName(fa), valueLabel(lk.X), p.Pos(lk.Pos())))
 							}
